@@ -132,10 +132,20 @@ def run(ctx, rep):
     rep.floor("R18.1", "operations on decoded values in _work", n_risky, 3)
     getattrs = [c for c in A.find_calls(fw.node, "getattr") if len(c.args) >= 2]
     okp = bool(getattrs)
+    from .. import miniinterp as MIg
     for c in getattrs:
         nm = c.args[1]
-        okp = okp and isinstance(nm, ast.BinOp) and isinstance(nm.left, ast.Constant) and str(nm.left.value).startswith("cmd_") \
-            and A.src(c.args[0]) == "self"
+        # the attribute name computed for a command word: evaluated on a sample word ("QuErY" -> "cmd_query"), whichever way
+        # the fixed prefix is spelled (a literal, a module-level constant, %-formatting, concatenation)
+        free = {x.id for x in A.walk(nm) if isinstance(x, ast.Name) and x.id not in fw.module.toplevel}
+        extra_g = {"__globals__": {v_: "QuErY" for v_ in free}}
+        extra_g["__global_lookup__"] = K.module_function_lookup(ctx, fw.module, extra_g)
+        try:
+            val_ = MIg.eval_expr(nm, extra_g)
+            okn = isinstance(val_, str) and val_.startswith("cmd_") and val_ == "cmd_query"
+        except (MIg.Raised, AnalysisError):
+            okn = isinstance(nm, ast.BinOp) and isinstance(nm.left, ast.Constant) and str(nm.left.value).startswith("cmd_")
+        okp = okp and okn and A.src(c.args[0]) == "self"
     rep.ob("R18.1", "_work: the command is selected only among methods with the fixed cmd_ prefix", okp,
            "getattr(self, 'cmd_%s' % ...)" if okp else "the peer can select an arbitrary attribute as command", fw.loc, kind="site")
     recv_nodes = [n for n in g.live if n.kind == "stmt" and n.ast is not None and A.find_calls(n.ast, "self._recv")]
